@@ -690,3 +690,17 @@ SPECS += [
                                  "updates": ["status", "world"]}},
          drop_calls=["self._check_status"], drop_assign=["unconn"], props=["C06", "C04"]),
 ]
+
+
+# ---- schedule.py : Composition._finalize_components (C03 C10) --------------------------------------------------------
+# `comp.finalize()` / `ada.finalize()` on other objects are recorded in traces; the status checks around them are the
+# translated call sites of the Lifecycle group
+SPECS += [
+    dict(lean="finalize_components", path="schedule.py", qual="Composition._finalize_components", group="Finalize",
+         fields={"_components": "List[Obj]", "_adapters": "List[Obj]", "fin": "List[Obj]", "finAd": "List[Obj]"}, params={}, ret="Unit",
+         assume_false=["isinstance(comp, ITimeComponent) and comp.status == ComponentStatus.VALIDATED"],
+         drop_calls=["self._check_status"],
+         calls={"comp.finalize": {"lean": "Py.recordPush", "args": ["self.fin", "comp"], "argtypes": ["List[Obj]", "Obj"], "stmt": True, "updates": ["fin"]},
+                "ada.finalize": {"lean": "Py.recordPush", "args": ["self.finAd", "ada"], "argtypes": ["List[Obj]", "Obj"], "stmt": True, "updates": ["finAd"]}},
+         props=["C03", "C10"]),
+]
